@@ -87,12 +87,12 @@ func (o op) String() string {
 }
 
 type seqCase struct {
-	ID        int   `json:"id"`
+	ID        int    `json:"id"`
 	Class     string `json:"class"` // "accepted-restarts" (Restart only generated below Share) | "free"
-	RoundNum  int64 `json:"round"`
-	Threshold int   `json:"threshold"`
-	Cap       int   `json:"timeout_cap"`
-	Ops       []op  `json:"ops"`
+	RoundNum  int64  `json:"round"`
+	Threshold int    `json:"threshold"`
+	Cap       int    `json:"timeout_cap"`
+	Ops       []op   `json:"ops"`
 }
 
 const c37Parties = 5
@@ -158,23 +158,23 @@ func genSeq(seed uint64, id int) seqCase {
 
 // observation of a round through its public accessors
 type obs struct {
-	Phase     int
-	TC        int
-	Shares    []string
-	Finalized bool
+	Phase      int
+	TC         int
+	Shares     []string
+	Finalized  bool
 	Finalizing bool
 }
 
 type seqResult struct {
-	Done       bool
-	Violations []seqViolation
-	Outcomes   []string // per op outcome class
-	HungAt     int      // index of the op after which nothing returned (-1 = none)
-	HungIn     string   // "op" or "observe"
-	HungFrame  string
-	HungDump   string
-	HangKind   string // "round-mutex" | "unknown"
-	Panic      string
+	Done                  bool
+	Violations            []seqViolation
+	Outcomes              []string // per op outcome class
+	HungAt                int      // index of the op after which nothing returned (-1 = none)
+	HungIn                string   // "op" or "observe"
+	HungFrame             string
+	HungDump              string
+	HangKind              string // "round-mutex" | "unknown"
+	Panic                 string
 	RejectedRestartBefore bool
 }
 
@@ -196,11 +196,13 @@ type seqRunner struct {
 	blocks   []*block.Block
 }
 
-func newBlocks(roundNum int64, tag string) []*block.Block {
+func newBlocks(roundNum int64, tag string) []*block.Block { return newBlocksN(roundNum, c37Blocks) }
+
+func newBlocksN(roundNum int64, n int) []*block.Block {
 	var bs []*block.Block
-	for i := 0; i < c37Blocks; i++ {
+	for i := 0; i < n; i++ {
 		b := block.NewBlock("", roundNum)
-		b.Hash = fmt.Sprintf("%064x", uint64(i+1)*1000003+uint64(len(tag)))
+		b.Hash = fmt.Sprintf("%064x", uint64(i+1)*1000003)
 		b.RoundRank = i % 3 // blocks 0 and 3 share a rank
 		b.MinerID = fmt.Sprintf("miner-%d", i)
 		bs = append(bs, b)
@@ -227,7 +229,7 @@ func (s *seqRunner) violate(at int, sig, detail string) {
 
 // run executes the case; it is the only goroutine that ever touches the round.
 func (s *seqRunner) run(done chan<- struct{}) {
-	s.gid = goid()
+	atomic.StoreInt64(&s.gid, goid())
 	defer close(done)
 	c := s.c
 	viper.Set("server_chain.round_timeouts.timeout_cap", c.Cap)
@@ -437,7 +439,7 @@ func runSeq(e *env, c seqCase, quiet bool) *seqResult {
 	last := int64(-1)
 	lastChange := time.Now()
 	confirmed := 0
-	tk := time.NewTicker(20 * time.Millisecond)
+	tk := time.NewTicker(10 * time.Millisecond)
 	defer tk.Stop()
 	for {
 		select {
@@ -451,7 +453,7 @@ func runSeq(e *env, c seqCase, quiet bool) *seqResult {
 			continue
 		}
 		quietFor := time.Since(lastChange)
-		if quietFor < 250*time.Millisecond*time.Duration(confirmed+1) {
+		if quietFor < 100*time.Millisecond*time.Duration(confirmed+1) {
 			continue
 		}
 		dump := allStacks()
@@ -485,21 +487,47 @@ func runSeq(e *env, c seqCase, quiet bool) *seqResult {
 	}
 }
 
-// minimise removes operations one at a time while the same hang (same op kind, same blocked frame) persists.
-func minimise(e *env, c seqCase, hungAt int, frame string) seqCase {
+// ddmin removes chunks of operations (halving the chunk size) in front of the last one while pred still holds.
+func ddmin(c seqCase, upto int, pred func(seqCase) bool) seqCase {
 	cur := c
-	cur.Ops = append([]op{}, c.Ops[:hungAt+1]...)
-	same := func(r *seqResult, n int) bool {
-		return r.HungAt == n-1 && r.HangKind == "round-mutex" && frameFunc(r.HungFrame) == frameFunc(frame)
-	}
-	for i := len(cur.Ops) - 2; i >= 0; i-- {
-		t := cur
-		t.Ops = append(append([]op{}, cur.Ops[:i]...), cur.Ops[i+1:]...)
-		if r := runSeq(e, t, true); same(r, len(t.Ops)) {
-			cur = t
+	cur.Ops = append([]op{}, c.Ops[:upto+1]...)
+	for chunk := len(cur.Ops) / 2; chunk >= 1; chunk /= 2 {
+		for i := 0; i < len(cur.Ops)-1; {
+			hi := i + chunk
+			if hi > len(cur.Ops)-1 {
+				hi = len(cur.Ops) - 1
+			}
+			t := cur
+			t.Ops = append(append([]op{}, cur.Ops[:i]...), cur.Ops[hi:]...)
+			if pred(t) {
+				cur = t
+			} else {
+				i = hi
+			}
 		}
 	}
 	return cur
+}
+
+// minimise shrinks a hanging case while the same hang (after the last op, same blocked frame) persists.
+func minimise(e *env, c seqCase, hungAt int, frame string) seqCase {
+	return ddmin(c, hungAt, func(t seqCase) bool {
+		r := runSeq(e, t, true)
+		return r.HungAt == len(t.Ops)-1 && r.HangKind == "round-mutex" && frameFunc(r.HungFrame) == frameFunc(frame)
+	})
+}
+
+// minimiseViolation shrinks a case while its last op still draws a violation with the same signature.
+func minimiseViolation(e *env, c seqCase, at int, sig string) seqCase {
+	return ddmin(c, at, func(t seqCase) bool {
+		r := runSeq(e, t, true)
+		for _, v := range r.Violations {
+			if v.Sig == sig && v.At == len(t.Ops)-1 {
+				return true
+			}
+		}
+		return false
+	})
 }
 
 func frameFunc(f string) string {
@@ -520,9 +548,10 @@ func opStrings(ops []op) []string {
 }
 
 func c37SeqChild(tier string, idx, of int) int {
-	run := mon.NewRun("C37", tier, "exploration", "")
+	run0 := mon.NewRun("C37", tier, "exploration", "")
+	run, lim := run0, newLimiter(run0)
 	e := setupEntities(c37Parties)
-	per := scale(tier, 150, 1500)
+	per := scale(tier, 120, 1500)
 	seed := mon.Seed()
 	minimised := map[string]bool{}
 	for k := 0; k < per; k++ {
@@ -541,15 +570,28 @@ func c37SeqChild(tier string, idx, of int) int {
 			run.Sample(map[string]interface{}{"kind": "sequential", "case": c.ID, "class": c.Class, "threshold": c.Threshold, "timeout_cap": c.Cap, "ops": opStrings(c.Ops), "outcomes": res.Outcomes})
 		}
 		for _, v := range res.Violations {
-			upto := v.At + 1
-			run.Violate(v.Sig, v.Detail, map[string]interface{}{"case": c, "prefix": opStrings(c.Ops[:upto]), "seed": seed})
+			w := c
+			w.Ops = c.Ops[:v.At+1]
+			detail := v.Detail
+			if !minimised[v.Sig] {
+				minimised[v.Sig] = true
+				w = minimiseViolation(e, c, v.At, v.Sig)
+				run.Count("seq_minimised_witnesses", 1)
+				detail += fmt.Sprintf("; minimal witness (threshold %d, timeout_cap %d): %v", c.Threshold, c.Cap, opStrings(w.Ops))
+			}
+			lim.Violate(v.Sig, detail, map[string]interface{}{"witness_ops": opStrings(w.Ops), "witness": w, "case": c.ID, "seed": seed})
 		}
 		if res.HungAt >= 0 {
 			run.Count("seq_hangs", 1)
 			o := c.Ops[res.HungAt]
+			hk := o.K.String()
+			if o.K == opRestart && res.RejectedRestartBefore {
+				hk += ":rejected"
+			}
+			run.Count("seq_op:"+hk+":never-returned-from-"+res.HungIn, 1)
 			if res.HangKind != "round-mutex" {
 				if res.HungFrame != "" {
-					run.Violate("C37:op-never-returns:"+o.K.String(), fmt.Sprintf("case %d: no return within 20 s after op %d %s, round frame %s", c.ID, res.HungAt, o, res.HungFrame),
+					lim.Violate("C37:op-never-returns:"+o.K.String(), fmt.Sprintf("case %d: no return within 20 s after op %d %s, round frame %s", c.ID, res.HungAt, o, res.HungFrame),
 						map[string]interface{}{"case": c, "dump": res.HungDump})
 				} else {
 					run.Inconclusive(fmt.Sprintf("sequence %d stalled outside the round package after op %d", c.ID, res.HungAt))
@@ -569,7 +611,7 @@ func c37SeqChild(tier string, idx, of int) int {
 			}
 			detail := fmt.Sprintf("after %s (op %d of case %d, it %s) the next locked access %s never returns: goroutine parked on the round's own mutex with no other user of the round; witness %v",
 				o, res.HungAt, c.ID, map[bool]string{true: "returned an error", false: "returned"}[res.RejectedRestartBefore && o.K == opRestart], frameFunc(res.HungFrame), opStrings(witness.Ops))
-			run.Violate(sig, detail, map[string]interface{}{"witness_ops": opStrings(witness.Ops), "witness_len": len(witness.Ops), "witness": witness, "blocked_frame": res.HungFrame, "goroutine": res.HungDump, "seed": seed})
+			lim.Violate(sig, detail, map[string]interface{}{"witness_ops": opStrings(witness.Ops), "witness_len": len(witness.Ops), "witness": witness, "blocked_frame": res.HungFrame, "goroutine": res.HungDump, "seed": seed})
 		}
 		if k%25 == 0 {
 			run.Checkpoint()
